@@ -42,7 +42,13 @@ spec is absent and the implementations it overrides stay silent.  (b) nested reg
 extends the registry class (or an earlier nested registry) and re-declares some of its points under the same
 name (`class ProductSpecs(BaseSpecs): conf = RegistryPoint()`), defined somewhere in the sequence; every
 later spec set subclasses any registry that exists by then.  All implementations hooked in through any of
-the registries are implementations of the one spec name, ordered by registration."""
+the registries are implementations of the one spec name, ordered by registration.
+
+Round 7: an implementation may be built on ANOTHER spec of the world - the registry point itself
+(`@datasource(Specs.release)`), the parser on it, or a combiner on that parser - alone or next to a context it
+names itself.  Its link to the execution context then passes through a registry point: it is declared for the
+contexts the implementations of that spec are declared for (as far as that was settled when it was registered)
+and can run only where that spec holds a value."""
 import itertools
 import json
 import sys
@@ -61,7 +67,9 @@ RULE = ("a registry class with 1-3 registry points (random flags) and a sequence
         "dr.set_enabled / insights.apply_configs right after they are defined, and history has switch steps "
         "(off / on again, same two entry points) between evaluations; every implementation is a generated datasource bound "
         "to one private context, an at-least-one list of contexts, a (chain of) context-bound helper "
-        "datasource(s), a context plus a helper, or (rarely) a context-free helper; outcomes value / "
+        "datasource(s), a context plus a helper, (rarely) a context-free helper, or - for a point that is not the first "
+        "one, ~1 implementation in 3 - ANOTHER SPEC of the world with a lower index (the registry point itself, the "
+        "parser on it, a combiner on that parser; alone or next to a context it names itself); outcomes value / "
         "list value / SkipComponent / ContentException / CalledProcessError / TimeoutException / "
         "ValueError; a spec set may bind one datasource object to several registry-point names (created in "
         "the same class or bound by an earlier class under another name; ~1 world in 12); the 3-4 context "
@@ -104,6 +112,11 @@ ASSUMPTIONS = [
     "dependency declarations; an implementation whose declarations reach no context is declared for "
     "none: it is never required to stay silent, and the expected value is asserted only where the "
     "statement is unambiguous (see EXCLUDED)",
+    "an implementation built on another spec (registry point / parser on it / combiner on the parser) is declared "
+    "for the contexts the implementations of that spec are declared for - the link to the context passes through a "
+    "registry point - as far as that spec had those implementations when the dependent one was registered (entries "
+    "of one class body are registered in the order in which they are written); it can run only where that spec "
+    "(its parser) holds a value; it always has a higher index than the specs it is built on",
     "an implementation that names a context can only run when one of its named contexts is active "
     "(no at-least-one group mixing a context with a context-free datasource)",
     "history: dr.COMPONENTS[GROUPS.single] holds only the generated components while a case runs (previous "
@@ -124,6 +137,13 @@ EXCLUDED = [
     "statement demands both that it is not executed at all and that it supplies the value - neither is "
     "asserted for that object, the value of the specs it is the latest implementation of is not asserted "
     "(all other claims are); the same object bound twice to the SAME spec name is not generated",
+    "an implementation built on another spec under an active context for which that spec got an implementation only "
+    "AFTER the dependent implementation was registered, or built on a spec that has a context-free implementation "
+    "(may hold a value under any context): whether it is 'declared for' the active context is not settled by the "
+    "statement - the value of its point and the call logs of the candidates of that point are not asserted there "
+    "('declared only for other contexts => never runs, holds nothing' still is); whether an implementation built on a "
+    "spec whose value is unasserted (or on the parser of a spec holding an empty list) runs is not asserted; under a "
+    "serialized archive nothing is demanded of implementations built on another spec (the spec may be hydrated)",
     "context classes that inherit the marker of the class they extend (every private context has a marker of "
     "its own); directories carrying several markers",
     "spec sets that subclass another implementing class; two contexts active at once; a nested registry that "
@@ -145,7 +165,12 @@ OUTS = ["ok", "ok", "ok", "list", "skip", "content", "cpe", "timeout", "crash", 
 # ------------------------------------------------------------------------------------------------
 # reference model (independent of dr)
 
-def _refs_ok(refs, nctx, nhelp):
+SPEC_REFS = "pqm"
+# references of an implementation to ANOTHER spec of the world: "p<k>" = registry point k itself
+# (`@datasource(Specs.release)`), "q<k>" = the parser on registry point k, "m<k>" = a combiner on that parser
+
+
+def _refs_ok(refs, nctx, nhelp, npts=0):
     for r in refs:
         if r[0] == "c":
             if not 0 <= int(r[1:]) < nctx:
@@ -153,9 +178,22 @@ def _refs_ok(refs, nctx, nhelp):
         elif r[0] == "h":
             if not 0 <= int(r[1:]) < nhelp:
                 return False
+        elif r[0] in SPEC_REFS:
+            if not 0 <= int(r[1:]) < npts:
+                return False
         else:
             return False
     return True
+
+
+def _spec_refs(node):
+    """indices of the registry points an implementation is built on (directly, through the parser on the
+    point, or through a combiner on that parser)"""
+    return [int(r[1:]) for r in node.get("req", []) + node.get("grp", []) if r[0] in SPEC_REFS]
+
+
+def _uses_specs(case):
+    return any(_spec_refs(im) for s in case["sets"] for im in s)
 
 
 SHIPPED_CTX = ["HostContext", "JBossContext", "HostArchiveContext"]
@@ -212,6 +250,7 @@ def _validate(case):
             raise HarnessError("bad case: inner registry %d defined before the registry it extends" % j)
         reg_points.append(set(inn["points"]))
     creators = {}      # object id (set, point of the creating entry) -> points it is bound to so far
+    spec_refs = {}     # object id -> other specs the object is built on
     for si, s in enumerate(case["sets"]):
         seen = set()
         if not 0 <= via[si] <= len(inner) or (via[si] and inner[via[si] - 1]["at"] > si):
@@ -228,12 +267,18 @@ def _validate(case):
                 oid = tuple(im["same_as"])
                 if oid not in creators or im["point"] in creators[oid]:
                     raise HarnessError("bad case: same_as %r" % (im["same_as"],))
+                if any(q >= im["point"] for q in spec_refs[oid]):
+                    raise HarnessError("bad case: same_as %r - the object is built on a spec that is not lower than "
+                                       "the name it is bound to (cycle)" % (im["same_as"],))
                 creators[oid].add(im["point"])
                 continue
             creators[(si, im["point"])] = set([im["point"]])
-            if not _refs_ok(im["req"] + im["grp"], nctx, len(case["helpers"])):
+            # another spec an implementation is built on always has a LOWER index than every name the
+            # implementation is bound to (no cycles)
+            if not _refs_ok(im["req"] + im["grp"], nctx, len(case["helpers"]), im["point"]):
                 raise HarnessError("bad case: implementation refs")
-            if any(r[0] == "h" for r in im["grp"]):
+            spec_refs[(si, im["point"])] = _spec_refs(im)
+            if any(r[0] != "c" for r in im["grp"]):
                 raise HarnessError("bad case: implementation group may only hold contexts")
             if not im["req"] and not im["grp"]:
                 raise HarnessError("bad case: implementation without any declaration")
@@ -265,8 +310,9 @@ def _declared(node, hdecl):
     for r in node["req"] + node["grp"]:
         if r[0] == "c":
             out.add(int(r[1:]))
-        else:
+        elif r[0] == "h":
             out |= hdecl[int(r[1:])]
+        # (contexts reached through another spec: see model)
     return out
 
 
@@ -294,70 +340,182 @@ def _value(tag, out):
     return None
 
 
+def _sat3(node, has):
+    """three-valued: True / False / None (= not decided by the statement, see model)"""
+    vals = [has(r) for r in node["req"]]
+    if any(v is False for v in vals):
+        return False
+    grp = True
+    if node["grp"]:
+        gv = [has(r) for r in node["grp"]]
+        grp = True if any(v is True for v in gv) else (None if any(v is None for v in gv) else False)
+    if grp is False:
+        return False
+    if grp is None or any(v is None for v in vals):
+        return None
+    return True
+
+
+def _declarations(case, hdecl):
+    """contexts an implementation is declared for when its declaration goes through ANOTHER SPEC of the world
+    (`@datasource(Specs.release)`, a parser / combiner built on a spec): the contexts the implementations of
+    that spec are declared for.
+
+    -> (per_point, creators, fin, reg): fin[object id] = (contexts, open) over the finished world,
+    reg[(set, point)] = (contexts, open) of that binding AT THE TIME IT WAS REGISTERED (only the implementations
+    the other spec had by then; within a class body: the entries before it).  open = the declaration reaches a
+    spec that has a context-free implementation (it may hold a value under any context)."""
+    per_point, creators = _bindings(case)
+    when = {}
+    for si, s in enumerate(case["sets"]):
+        for k, im in enumerate(s):
+            when[(si, im["point"])] = (si, k)
+    memo = {}
+
+    def D(oid, t):
+        if (oid, t) in memo:
+            return memo[(oid, t)]
+        im = creators[oid]
+        out, opn = set(), False
+        for r in im["req"] + im["grp"]:
+            if r[0] == "c":
+                out.add(int(r[1:]))
+            elif r[0] == "h":
+                out |= hdecl[int(r[1:])]
+            else:
+                q = int(r[1:])
+                for (si, o) in per_point[q]:
+                    if t is not None and when[(si, q)] >= t:
+                        continue
+                    ds, do = D(o, t)
+                    if do or not ds:
+                        opn = True
+                    out |= ds
+        memo[(oid, t)] = (out, opn)
+        return memo[(oid, t)]
+
+    fin = dict((oid, D(oid, None)) for oid in creators)
+    reg = {}
+    for p, binds in enumerate(per_point):
+        for (si, oid) in binds:
+            reg[(si, p)] = D(oid, when[(si, p)])
+    return per_point, creators, fin, reg
+
+
 def model(case, active):
     """-> per point: dict(mode = value | absent | unasserted, value, must_not_run=[[set, point, why, object id]],
-    latest=[set, point] of the binding or None, latest_obj=object id, latest_runs=bool, ...).
+    latest=[set, point] of the binding or None, latest_obj=object id, latest_runs=bool | None, ...).
 
     One datasource object may be bound to several registry-point names (same_as).  It is then ONE
     implementation with one execution; the statement is applied per spec name.  Where the statement
     contradicts itself for such an object - registered earlier than another implementation for the active
     context under one name ("not executed at all") and the latest one under another name ("supplies the
     value") - nothing is demanded of that object and of the specs it is the latest implementation of
-    (conflict=True, mode unasserted)."""
+    (conflict=True, mode unasserted).
+
+    An implementation may be built on ANOTHER spec of the world (always one with a lower index): it is then
+    declared for the contexts the implementations of that spec are declared for and can run only when that
+    spec holds a value.  Where "declared for" is not decided by the statement - the other spec got an
+    implementation for the active context only AFTER this one was registered, or it has a context-free
+    implementation - the point is `ambiguous` under that context: its value and the call logs of its
+    candidates are left unasserted (implementations none of whose declarations reaches the active context
+    still must not run).  Whether a spec whose value is unasserted holds one is unknown (None), and so is
+    whether an implementation built on it runs."""
     hdecl = []
     hval = {}
     for j, h in enumerate(case["helpers"]):
         hdecl.append(_declared(h, hdecl))
         if _satisfied(h, active, hval) and h["out"] == "ok":
             hval[j] = "h%d" % j
-    per_point, creators = _bindings(case)
+    per_point, creators, fin, reg = _declarations(case, hdecl)
     disabled = set(tuple(o) for o in case.get("disabled", []))
     via = _via(case)
     redeclared = set(p for inn in _inner(case) for p in inn["points"])
-    obj = {}
-    for oid, im in creators.items():
-        # an implementation that is switched off (dr.set_enabled / apply_configs `enabled: false`) is still
-        # registered and still declared for its contexts; it "yields nothing"
-        runnable = _satisfied(im, active, hval) and oid not in disabled
-        obj[oid] = {"decl": _declared(im, hdecl), "runnable": runnable,
-                    "val": _value("v|s%d|p%d" % oid, im["out"]) if runnable else None,
-                    "names": sum(1 for pp in per_point for (_si, o) in pp if o == oid)}
+    names = {}
+    for pp in per_point:
+        for (_si, o) in pp:
+            names[o] = names.get(o, 0) + 1
     roles = {}
     for p, binds in enumerate(per_point):
-        cands = [oid for (_si, oid) in binds if active in obj[oid]["decl"]]
+        cands = [oid for (_si, oid) in binds if active in fin[oid][0]]
         for oid in cands[:-1]:
             roles.setdefault(oid, set()).add("earlier")
         if cands:
             roles.setdefault(cands[-1], set()).add("latest")
     conflict = set(oid for oid, r in roles.items() if len(r) == 2)
     res = []
+
+    def has(r):
+        k = int(r[1:])
+        if r[0] == "c":
+            return k == active
+        if r[0] == "h":
+            return k in hval
+        m = res[k]       # (another spec: always a lower index, resolved already)
+        if m["mode"] == "unasserted":
+            return None
+        if m["mode"] == "absent":
+            return False
+        if r[0] == "p":
+            return True
+        # the parser on the spec (a combiner on that parser): it has a value when it was handed something
+        return None if m["value"] == [] else True
+
+    obj = {}
+
+    def resolved(oid):
+        if oid not in obj:
+            im = creators[oid]
+            # an implementation that is switched off (dr.set_enabled / apply_configs `enabled: false`) is still
+            # registered and still declared for its contexts; it "yields nothing"
+            runnable = False if oid in disabled else _sat3(im, has)
+            obj[oid] = {"runnable": runnable, "val": _value("v|s%d|p%d" % oid, im["out"]) if runnable is not False else None}
+        return obj[oid]
+
     for p, binds in enumerate(per_point):
-        impls = [{"id": [si, p], "oid": oid, "decl": obj[oid]["decl"], "runnable": obj[oid]["runnable"],
-                  "val": obj[oid]["val"]} for (si, oid) in binds]
+        impls = []
+        for (si, oid) in binds:
+            o = resolved(oid)
+            decl, opn = fin[oid]
+            impls.append({"id": [si, p], "oid": oid, "decl": decl, "open": opn, "runnable": o["runnable"],
+                          # val: the value it yields if it runs; maybe = it is not known whether it runs
+                          "val": o["val"], "maybe": o["runnable"] is None,
+                          "unsettled": opn or (active in decl and active not in reg[(si, p)][0]),
+                          "direct": active in _declared(creators[oid], hdecl)})
+        ambiguous = any(im["unsettled"] for im in impls)
         cands = [k for k, im in enumerate(impls) if active in im["decl"]]
-        free = [k for k, im in enumerate(impls) if not im["decl"]]
+        free = [k for k, im in enumerate(impls) if not im["decl"] and not im["open"]]
         free_val = [k for k in free if impls[k]["val"] is not None]
-        must_not_run = [impls[k]["id"] + ["registered earlier for the active context", list(impls[k]["oid"])]
-                        for k in cands[:-1] if impls[k]["oid"] not in conflict]
+        must_not_run = []
+        if not ambiguous:
+            must_not_run += [impls[k]["id"] + ["registered earlier for the active context", list(impls[k]["oid"])]
+                             for k in cands[:-1] if impls[k]["oid"] not in conflict]
         must_not_run += [im["id"] + ["declared only for other contexts", list(im["oid"])] for im in impls
-                         if im["decl"] and active not in im["decl"]]
+                         if im["decl"] and not im["open"] and active not in im["decl"]]
         r = {"point": p, "must_not_run": must_not_run, "latest": None, "latest_obj": None, "latest_runs": False,
              "mode": "absent", "value": None, "n_impls": len(impls), "n_cands": len(cands),
              "mixed": any(len(impls[k]["decl"]) > 1 for k in cands), "n_free": len(free), "conflict": False,
-             "shared": any(obj[im["oid"]]["names"] > 1 for im in impls),
+             "shared": any(names[im["oid"]] > 1 for im in impls),
              "latest_shared": False, "latest_disabled": False,
              "n_disabled": sum(1 for im in impls if im["oid"] in disabled),
              "redeclared": p in redeclared,
-             "registries": len(set(via[impls[k]["id"][0]] for k in cands))}
+             "registries": len(set(via[impls[k]["id"][0]] for k in cands)),
+             "ambiguous": ambiguous,
+             # candidates whose only link to the active context is another spec
+             "n_through_spec": sum(1 for k in cands if not impls[k]["direct"]),
+             "latest_through_spec": False}
         if cands:
             L = impls[cands[-1]]
             r["latest"] = L["id"]
             r["latest_obj"] = list(L["oid"])
             r["latest_runs"] = L["runnable"]
             r["latest_disabled"] = L["oid"] in disabled
-            r["latest_shared"] = obj[L["oid"]]["names"] > 1
+            r["latest_shared"] = names[L["oid"]] > 1
+            r["latest_through_spec"] = not L["direct"]
             if L["oid"] in conflict:
                 r["conflict"] = True
+                r["mode"] = "unasserted"
+            elif L["maybe"]:
                 r["mode"] = "unasserted"
             elif L["val"] is not None:
                 if any(k > cands[-1] for k in free_val):
@@ -374,6 +532,9 @@ def model(case, active):
             # context-free implementation holds a value next to the declared ones the statement does not
             # say which one "overrides" (see EXCLUDED) - and here not even registration order decides
             r["mode"] = "unasserted"
+        if ambiguous:
+            r["mode"] = "unasserted"
+            r["value"] = None
         res.append(r)
     return res
 
@@ -469,6 +630,55 @@ def selftest():
     case["sets"][1][0]["out"] = "ok"
     _validate(case)
     assert model(case, 0)[0]["mode"] == "unasserted" and len(model(case, 0)[0]["must_not_run"]) == 1
+    # an implementation built on ANOTHER spec is declared for the contexts that spec's implementations are
+    # declared for: it overrides the earlier implementation for c0, which stays silent; when the other spec is
+    # absent (its latest implementation fails) the latest one cannot run and the spec is absent
+    spec_case = {"nctx": 3, "points": [{}, {}], "helpers": [],
+                 "sets": [[im(0, req=["c0"]), im(1, req=["c0"])], [im(1, req=["p0"])]]}
+    _validate(spec_case)
+    m = model(spec_case, 0)
+    assert m[1]["mode"] == "value" and m[1]["value"] == "v|s1|p1" and m[1]["latest"] == [1, 1] and m[1]["latest_runs"] is True
+    assert [x[:3] for x in m[1]["must_not_run"]] == [[0, 1, "registered earlier for the active context"]]
+    assert m[1]["latest_through_spec"] and not m[1]["ambiguous"]
+    m = model(spec_case, 1)
+    assert m[1]["mode"] == "absent" and m[1]["n_cands"] == 0 and len(m[1]["must_not_run"]) == 2
+    for ref in ("q0", "m0"):
+        c2 = dict(spec_case, sets=[[im(0, req=["c0"], out="skip"), im(1, req=["c0"])], [im(1, req=[ref])]])
+        _validate(c2)
+        m = model(c2, 0)
+        assert m[1]["mode"] == "absent" and m[1]["latest"] == [1, 1] and m[1]["latest_runs"] is False
+        assert [x[:2] for x in m[1]["must_not_run"]] == [[0, 1]]
+    # ... the other spec gets its implementation for c1 only AFTER the dependent one was registered: whether the
+    # dependent one is "declared for" c1 is not settled -> nothing but "other contexts never contribute" there
+    c2 = dict(spec_case, sets=[[im(0, req=["c0"]), im(1, grp=["c0", "c1"])], [im(1, req=["p0"])], [im(0, req=["c1"])],
+                               [im(1, req=["c2"])]])
+    _validate(c2)
+    m = model(c2, 1)
+    assert m[1]["ambiguous"] and m[1]["mode"] == "unasserted" and [x[:2] for x in m[1]["must_not_run"]] == [[3, 1]]
+    m = model(c2, 0)
+    assert not m[1]["ambiguous"] and m[1]["mode"] == "value" and m[1]["value"] == "v|s1|p1"
+    assert sorted(x[:2] for x in m[1]["must_not_run"]) == [[0, 1], [3, 1]]
+    # ... within one class body the entries before it count, the entries after it do not
+    c2 = dict(spec_case, sets=[[im(1, req=["c0"])], [im(1, req=["p0"]), im(0, req=["c0"])]])
+    assert model(c2, 0)[1]["ambiguous"]
+    c2 = dict(spec_case, sets=[[im(1, req=["c0"])], [im(0, req=["c0"]), im(1, req=["p0"])]])
+    assert not model(c2, 0)[1]["ambiguous"] and model(c2, 0)[1]["latest"] == [1, 1]
+    # ... the other spec has a context-free implementation: open, nothing settled; a spec whose value is
+    # unasserted makes the implementations built on it unknown
+    c2 = {"nctx": 3, "points": [{}, {}, {}], "helpers": [{"req": [], "grp": [], "out": "ok"}],
+          "sets": [[im(0, req=["c0"]), im(1, req=["c0"]), im(2, req=["c0"])], [im(0, req=["h0"])],
+                   [im(1, req=["c0", "p0"])], [im(2, req=["q1"])]]}
+    _validate(c2)
+    m = model(c2, 0)
+    assert m[0]["mode"] == "unasserted" and m[1]["ambiguous"] and m[2]["ambiguous"] and m[2]["must_not_run"] == []
+    for bad in ({"sets": [[im(0, req=["p0"])]]}, {"sets": [[im(1, req=["p1"])]]}, {"sets": [[im(1, grp=["c0", "p0"])]]},
+                {"sets": [[im(1, req=["m0"]), {"point": 0, "same_as": [0, 1]}]]}):
+        try:
+            _validate(dict(spec_case, **bad))
+        except HarnessError:
+            pass
+        else:
+            raise AssertionError("accepted %r" % (bad,))
     for bad in ({"via": [0, 1, 0]}, {"via": [1, 0, 0, 0]}, {"inner": [{"base": 0, "points": [2], "at": 0}]},
                 {"inner": [{"base": 0, "points": [1], "at": 0}]}, {"disabled": [[1, 1]]}):
         try:
@@ -554,7 +764,7 @@ def _build(case, uid, log, parsed, provider=False):
     ctxs = []
     world = {"ctxs": ctxs, "comps": comps, "modname": modname, "helpers": [], "points": [],
              "impls": {}, "parsers": [], "classes": [], "private_ctxs": [], "shipped_ctxs": {},
-             "objs": {}}
+             "objs": {}, "combiners": {}}
     from insights.core import context as _context
     from insights.core import dr as _dr
     for i, d in enumerate(_ctx_descr(case)):
@@ -574,7 +784,17 @@ def _build(case, uid, log, parsed, provider=False):
 
     def deps_of(node):
         def ref(r):
-            return ctxs[int(r[1:])] if r[0] == "c" else world["helpers"][int(r[1:])]
+            k = int(r[1:])
+            if r[0] == "c":
+                return ctxs[k]
+            if r[0] == "h":
+                return world["helpers"][k]
+            # another spec of the world: the registry point itself, the parser on it, a combiner on that parser
+            if r[0] == "p":
+                return world["points"][k]
+            if r[0] == "q":
+                return world["parsers"][k]
+            return world["combiners"][k]
         args = [ref(r) for r in node["req"]]
         if node["grp"]:
             args.append([ref(r) for r in node["grp"]])
@@ -679,6 +899,19 @@ def _build(case, uid, log, parsed, provider=False):
             setattr(mod, pbody.__name__, pbody)
             comp = parser(pt)(pbody)
             world["parsers"].append(comp)
+            comps.append(comp)
+        # combiners on those parsers, where an implementation is built on one
+        from insights.core.plugins import combiner
+        wanted = sorted(set(int(r[1:]) for s in case["sets"] for im in s
+                            for r in im.get("req", []) if r[0] == "m"))
+        for q in wanted:
+            def cbody(pq, q=q):
+                return ["combined", q]
+            cbody.__name__ = cbody.__qualname__ = "combiner%d_%d" % (uid, q)
+            cbody.__module__ = modname
+            setattr(mod, cbody.__name__, cbody)
+            comp = combiner(world["parsers"][q])(cbody)
+            world["combiners"][q] = comp
             comps.append(comp)
 
     world["define_set"] = define_set
@@ -816,7 +1049,8 @@ def _assert_resolution(case, active, broker, log, parsed, world, labels):
                 raise Violation("implementation of set %d for point %d has a value in the broker "
                                 "although it must not contribute under context %d" % (sid[0], p, active),
                                 **ctx)
-        if m["latest"] is not None and not m["conflict"] and not m["latest_disabled"]:
+        if (m["latest"] is not None and not m["conflict"] and not m["latest_disabled"] and not m["ambiguous"]
+                and m["latest_runs"] is not None):
             # (that a switched-off component is not executed is dr.set_enabled's promise, not this statement's)
             n = calls.get(tuple(m["latest_obj"]), 0)
             if n != (1 if m["latest_runs"] else 0):
@@ -846,8 +1080,12 @@ def _assert_resolution(case, active, broker, log, parsed, world, labels):
             if seen or parsers[p] in broker:
                 raise Violation("parser on point %d fired although the spec is absent" % p, seen=seen, **ctx)
         else:
-            labels.add("value-unasserted(shared object: earlier under one name, latest under another)"
-                       if m["conflict"] else "value-unasserted(context-free impl)")
+            labels.add("value-unasserted(declaration through another spec not settled at registration / open)"
+                       if m["ambiguous"] else
+                       "value-unasserted(shared object: earlier under one name, latest under another)"
+                       if m["conflict"] else
+                       "value-unasserted(built on a spec whose value is unasserted)"
+                       if m["latest_runs"] is None else "value-unasserted(context-free impl)")
             # still: the parser sees what the point holds, nothing else
             if pt in broker:
                 v = held(pt)
@@ -864,8 +1102,16 @@ def _assert_resolution(case, active, broker, log, parsed, world, labels):
             labels.add("override+multi-context-declaration")
         if m["n_cands"] >= 2 and m["mode"] == "absent":
             labels.add("override+latest-yields-nothing")
-        if m["latest"] is not None and not m["latest_runs"]:
+        if m["latest"] is not None and m["latest_runs"] is False:
             labels.add("latest-unmet-deps")
+        if m["n_through_spec"] and not m["ambiguous"]:
+            labels.add("candidate-declared-through-another-spec")
+            if m["n_cands"] >= 2:
+                labels.add("override+candidate-through-another-spec")
+                if m["latest_through_spec"]:
+                    labels.add("override+latest-through-another-spec(%s)" % m["mode"])
+                    if m["latest_runs"] is False:
+                        labels.add("override+latest-through-another-spec+other-spec-absent")
         if m["n_free"]:
             labels.add("has-context-free-impl")
             if m["mode"] == "value" and m["n_cands"]:
@@ -928,7 +1174,9 @@ def check_world(case):
                     nontrivial_here = True
             return nontrivial_here
 
-        if eval_after:
+        # (an implementation built on the parser of another spec needs that parser to exist)
+        parsers_first = bool(eval_after) or _uses_specs(case)
+        if parsers_first:
             world["define_parsers"]()
         for si in range(len(case["sets"])):
             world["define_set"](si)
@@ -939,7 +1187,7 @@ def check_world(case):
             if si in eval_after:
                 nontrivial = evaluate(si + 1) or nontrivial
                 labels.add("evaluated-between-definitions")
-        if not eval_after:
+        if not parsers_first:
             world["define_parsers"]()
         nontrivial = evaluate(len(case["sets"])) or nontrivial
         labels.add("driver=%s" % case.get("driver", "run"))
@@ -1002,6 +1250,7 @@ def _world(draw, tier):
         kinds += ["via", "via", "ctx+via"]
     sets = []
     bound = {}      # object id -> points the object is bound to so far
+    built_on = {}   # object id -> the highest other spec the object is built on
     share = npoints >= 2 and draw(st.sampled_from([False, False, True]))
     nsets = draw(st.integers(1, 6))
     # nested registries (~1 world in 3 with >= 2 spec sets): `class ProductSpecs(BaseSpecs): conf = RegistryPoint()` -
@@ -1031,9 +1280,17 @@ def _world(draw, tier):
             if not draw(st.sampled_from([True, True, True, False])):
                 unused.append(p)
                 continue
-            kind = draw(st.sampled_from(kinds))
+            # built on ANOTHER spec of the world (one with a lower index: no cycles): the registry point itself
+            # (`@datasource(Specs.release)`), the parser on it, a combiner on that parser - alone (the
+            # implementation is then declared for the contexts the other spec's implementations are declared
+            # for) or next to a context it names itself
+            kind = draw(st.sampled_from(kinds + ["spec", "spec", "ctx+spec"] if p else kinds))
             im = {"point": p, "req": [], "grp": [], "out": draw(st.sampled_from(OUTS))}
-            if kind == "one":
+            if kind in ("spec", "ctx+spec"):
+                im["req"] = ["%s%d" % (draw(st.sampled_from(["p", "p", "q", "m"])), draw(st.integers(0, p - 1)))]
+                if kind == "ctx+spec":
+                    im["req"].insert(0, "c%d" % draw(ctx_idx))
+            elif kind == "one":
                 im["req"] = ["c%d" % draw(ctx_idx)]
             elif kind == "any":
                 im["grp"] = ["c%d" % c for c in ctx_list()]
@@ -1043,14 +1300,17 @@ def _world(draw, tier):
                 im["req"] = ["c%d" % draw(ctx_idx), "h%d" % draw(st.integers(0, len(helpers) - 1))]
             s.append(im)
             bound[(si, p)] = set([p])
+            if _spec_refs(im):
+                built_on[(si, p)] = max(_spec_refs(im))
         if share:
             # one datasource object under several registry-point names: `secondary = primary` in the class
             # body (the object was created in this class) or a datasource that an earlier class already
             # bound to another name; never twice under the same name.  Position in the class body: anywhere
             # after the entry that creates the object.
             for q in unused:
-                here = [o for o in sorted(bound) if o[0] == si and q not in bound[o]]
-                before = [o for o in sorted(bound) if o[0] < si and q not in bound[o]]
+                # (an object built on another spec is only bound to names above that spec)
+                here = [o for o in sorted(bound) if o[0] == si and q not in bound[o] and built_on.get(o, -1) < q]
+                before = [o for o in sorted(bound) if o[0] < si and q not in bound[o] and built_on.get(o, -1) < q]
                 pool = here + here + here + before
                 if not pool or not draw(st.sampled_from([True, True, False])):
                     continue
@@ -1405,9 +1665,12 @@ def check_history(case):
     try:
         tmp = tempfile.mkdtemp(prefix="vp_c05_")
         world = _build(wcase, uid, log, parsed, provider=True)
+        if _uses_specs(wcase):
+            world["define_parsers"]()
         for si in range(len(wcase["sets"])):
             world["define_set"](si)
-        world["define_parsers"]()
+        if not _uses_specs(wcase):
+            world["define_parsers"]()
         ctxs, points, impls, parsers = world["ctxs"], world["points"], world["impls"], world["parsers"]
         nctx = wcase["nctx"]
         # the implementations that are switched off at the moment (the world may start with some)
@@ -1569,7 +1832,9 @@ def check_history(case):
             for p, pt in enumerate(points):
                 free = False
                 for si, oid in per_point[p]:
-                    if not _declared(creators[oid], hdecl):
+                    if not _declared(creators[oid], hdecl) or _spec_refs(creators[oid]):
+                        # (an implementation built on another spec runs wherever that spec holds a value -
+                        # in a serialized archive the spec may have been hydrated)
                         free = True
                         continue
                     if oid in calls or impls[(si, p)] in broker:
